@@ -20,6 +20,11 @@ def check(run):
         s = C09.spec_concat_empty(w)
         s.prop = 'C10'
         run.prove(s)
+    # parallel host lookup of particles: res[i] = left insertion point of b[i] in a, for every i, with no thread count in the contract
+    from contracts import C12
+    ss = C12.spec_searchsorted()
+    ss.prop = 'C10'
+    run.prove(ss)
     sa = C09.spec_assembly(('LRG', 'ELG', 'QSO'))
     sa.prop = 'C10'
     run.prove(sa)
@@ -27,12 +32,59 @@ def check(run):
     hodk.prove_kernels(run, 'C10', run.tier)
     run.discharge()
     C09.bounded(run, 'C10')
+    lookup_bounded(run)        # after the fork pools: numba's threading layer must not be initialised in the parent before a fork
     run.extra['explanation'] = ('fast_concatenate proved for every thread count by the E1 engine; gen_cent and gen_sats proved against a postcondition that does not mention Nthread '
                                 '(host q with code c sits in row RK(c, q); lengths RK(c, H); lemmas RK_strict / RK_onto: every row written exactly once; prange footprints '
                                 'of distinct threads disjoint; gstart[t, c] = RK(c, hstart[t]) links count and fill pass); the assembly tail of gen_gals is proved under the fast_concatenate contract (its postcondition does not mention Nthread); the composed catalogue is '
                                 'checked by the bounded stand-in: bitwise identity across thread counts and equality with a thread-free sequential reference')
     run.assumptions += ['np.rint(np.linspace(0, H, T+1)).astype(int64) is non-decreasing from 0 to H (assumed library contract)',
                         'gen_cent / gen_sats: cumsum block contract and occupation functions as uninterpreted functions (see C09)']
+
+
+def lookup_bounded(run):
+    """the real _searchsorted_parallel for every thread count on particle id lists that are NOT globally sorted (staging re-sorts the
+    halos but leaves particles grouped slab by slab), empty inputs, ids below / above / between the halo ids"""
+    import numba
+    import numpy as np
+    C12 = __import__('contracts.C12', fromlist=['x'])
+    hod = C12.import_hod()
+    rng = np.random.default_rng(run.seed + 5)
+    nev, bad = 0, None
+    cases = []
+    for H in (0, 1, 2, 7, 40):
+        a = np.sort(rng.choice(10 * H + 5, size=H, replace=False)).astype(np.int64)
+        for P in (0, 1, 3, 25, 101):
+            b = rng.integers(-2, 10 * H + 8, size=P).astype(np.int64)
+            if H and P:
+                b[:: 2] = rng.choice(a, size=len(b[:: 2]))       # present ids, in no particular order
+            cases.append((a, b))
+    nmax = numba.config.NUMBA_NUM_THREADS
+    try:
+        for a, b in cases:
+            want = np.searchsorted(a, b)
+            for nt in sorted({1, 2, 3, 7, nmax}):
+                if nt > nmax:
+                    continue
+                numba.set_num_threads(nt)
+                try:
+                    got = hod._searchsorted_parallel(a, b)
+                except Exception as ex:      # noqa
+                    got = None
+                    why = f'raised {ex!r}'
+                nev += 1
+                if got is None or not np.array_equal(got, want):
+                    bad = (dict(a=a.tolist(), b=b.tolist(), nthread=nt),
+                           f'_searchsorted_parallel with {nt} threads: ' + (why if got is None else f'{got.tolist()} != searchsorted {want.tolist()}'))
+                    break
+            if bad:
+                break
+    finally:
+        numba.set_num_threads(nmax)
+    if bad:
+        run.bounded_violation('particle host lookup depends on the thread count / particle order', bad[0], bad[1])
+    run.add_bounded('real _searchsorted_parallel vs numpy.searchsorted for thread counts 1, 2, 3, 7, max', nev, len(cases),
+                    'halo id tables of 0/1/2/7/40 sorted distinct ids x particle lists of 0/1/3/25/101 ids in arbitrary order (present, absent, below, above)',
+                    [dict(a=cases[-1][0][:5].tolist(), b=cases[-1][1][:8].tolist())])
 
 
 def replay_file(rec, repo):
